@@ -2203,9 +2203,8 @@ class LogicalFile:
             data = {}
 
         if isinstance(data, dict):
-            self._data_dict = self._data_dict | data
             data_object = DictDataWrapper(
-                self._data_dict,
+                self._data_dict | data,  # data passed for this write only; not kept for the following ones
                 mapping=fr.channel_name_mapping,
                 known_dtypes=fr.known_channel_dtypes_mapping,
                 from_idx=from_idx,
